@@ -20,7 +20,7 @@ Section Spec.
   Variable val : Type.
   Variable rt : val -> val.
   Variable vnet : Z -> val.
-  Variable vfront : val.
+  Variable vfront : Z -> val.
   Variable vempty : val.
   Variable route : alist val -> option Z.
   Variable kinst : Z.
@@ -69,7 +69,7 @@ Section Spec.
           | x, _ => x
           end
         else bsid_r older b
-    | OForwardKeep sid b' :: older =>
+    | OForwardKeep sid b' :: older | OForwardKeepN sid b' :: older =>
         if Z.eqb b' b then
           match bsid_r older b, conn_r older sid with
           | None, CLive => Some sid
@@ -173,7 +173,7 @@ Section Spec.
           | None => []
           end
         else bdata_r older b
-    | OForwardKeep sid b' :: older =>
+    | OForwardKeep sid b' :: older | OForwardKeepN sid b' :: older =>
         if Z.eqb b' b then
           match bsid_r older b, fmap_r older sid with
           | None, Some m => aset k_id (id_of val vempty m) []
@@ -226,7 +226,7 @@ Section Spec.
     match fmap h sid with
     | Some m =>
         match route m with
-        | Some i => BFwd i (id_of val vempty m) vfront sid
+        | Some i => BFwd i (id_of val vempty m) (vfront sid) sid
         | None => BFwdNone
         end
     | None => BIgnored
@@ -275,9 +275,10 @@ Section Spec.
             end
         | None => BIgnored
         end
+    | OForwardKeepN sid _ => match fmap h sid with Some _ => BUnit | None => BIgnored end
     | OForwardKeep sid _ =>
         match fmap h sid with
-        | Some m => BFwd kinst (id_of val vempty m) vfront sid
+        | Some m => BFwd kinst (id_of val vempty m) (vfront sid) sid
         | None => BIgnored
         end
     end.
